@@ -8,10 +8,16 @@
 //! debugger output there, so the driver points them at /dev/null.
 
 mod exec;
+mod progs;
+mod refasm;
 mod refvm;
 mod util;
 
+mod c01;
 mod c02;
+mod c03;
+mod c04;
+mod c05;
 
 use std::time::Instant;
 
@@ -102,12 +108,35 @@ fn parse_args() -> Cfg {
 fn main() {
     let cfg = parse_args();
     exec::install_panic_hook();
+    if let Some(path) = &cfg.out {
+        let _ = util::OUT_PATH.set(path.clone());
+    }
     let start = Instant::now();
     let mut col = Collector::new();
-    let floors: &[&str] = match cfg.property.as_str() {
+    let sv = |f: &[&str]| f.iter().map(|s| s.to_string()).collect::<Vec<String>>();
+    let floors: Vec<String> = match cfg.property.as_str() {
+        "C01" => {
+            c01::run(&cfg, &mut col);
+            sv(c01::FLOORS)
+        }
         "C02" => {
             c02::run(&cfg, &mut col);
-            c02::FLOORS
+            sv(c02::FLOORS)
+        }
+        "C05" => {
+            c05::run(&cfg, &mut col);
+            c05::run_sizes(&cfg, &mut col);
+            let mut f = sv(c05::FLOORS);
+            f.extend(sv(c05::SIZE_FLOORS));
+            f
+        }
+        "C03" => {
+            c03::run(&cfg, &mut col);
+            sv(c03::FLOORS)
+        }
+        "C04" => {
+            c04::run(&cfg, &mut col);
+            c04::floors()
         }
         other => {
             eprintln!("unknown property {}", other);
@@ -115,11 +144,12 @@ fn main() {
         }
     };
     let wall = start.elapsed().as_secs_f64();
-    let floors: Vec<&str> = if cfg.only_case.is_some() || cfg.miri {
+    let floors: Vec<String> = if cfg.only_case.is_some() || cfg.miri {
         Vec::new()
     } else {
-        floors.to_vec()
+        floors
     };
+    let floors: Vec<&str> = floors.iter().map(|s| s.as_str()).collect();
     let mut doc = match col.to_json(&floors) {
         J::O(pairs) => pairs,
         _ => unreachable!(),
